@@ -37,32 +37,69 @@ NAME_POOLS = [
     ["zeta", "Build", "x", "app_2", "m", "obj", "k9"],
 ]
 
-# ---------------------------------------------------------------- recording
+# ------------------------------------------------- process model + recording
 
 _HISTORY = []  # (target name, task index) in execution order
 _FAULT = [None]  # raise TaskError on the k-th executed task of this call
+_CODE = {}
 
 
-class SimRecordTask(tasks.Task):
-    """Recording task registered in task_map (the registry is the seam)."""
+def fresh_process_state():
+    """One simulated run models one process life time: the modules the
+    property anchors start from their import-time state (module globals,
+    default arguments, class attributes, task registry), so a run is a pure
+    function of its choices, and state leaking from one project session into
+    the next shows up *inside* a run (as a violation) instead of between
+    runs (as irreproducibility)."""
+    global tasks, RecipeLoader
+    import types
+    import ppci.build
 
-    def run(self):
-        k = len(_HISTORY)
-        _HISTORY.append((self.target.name, int(self.arguments["idx"])))
-        if _FAULT[0] is not None and k == _FAULT[0]:
-            raise tasks.TaskError("injected task failure")
+    new = {}
+    for name in ("ppci.build.tasks", "ppci.build.recipe"):
+        old = sys.modules[name]
+        if name not in _CODE:
+            with open(old.__file__) as f:
+                _CODE[name] = compile(f.read(), old.__file__, "exec")
+        mod = types.ModuleType(name)
+        mod.__file__ = old.__file__
+        mod.__package__ = "ppci.build"
+        sys.modules[name] = mod
+        setattr(ppci.build, name.rsplit(".", 1)[1], mod)
+        exec(_CODE[name], mod.__dict__)
+        new[name] = mod
+    tasks = new["ppci.build.tasks"]
+    RecipeLoader = new["ppci.build.recipe"].RecipeLoader
+    api.TaskRunner = tasks.TaskRunner
+    api.TaskError = tasks.TaskError
+    api.RecipeLoader = RecipeLoader
 
+    class SimRecordTask(tasks.Task):
+        """Recording task registered in task_map (the registry is the
+        seam)."""
 
-tasks.register_task(SimRecordTask)
+        def run(self):
+            k = len(_HISTORY)
+            _HISTORY.append((self.target.name, int(self.arguments["idx"])))
+            if _FAULT[0] is not None and k == _FAULT[0]:
+                raise tasks.TaskError("injected task failure")
+
+    tasks.register_task(SimRecordTask)
 
 # ---------------------------------------------------------------- workload
 
 
-def gen_project(ch):
+def gen_history(ch):
+    """1-3 project sessions in one process, sharing a pool of names."""
+    pool = NAME_POOLS[ch.draw(len(NAME_POOLS), "names")]
+    nsess = 1 + ch.weighted([12, 3, 1], "nsessions")
+    return [gen_project(ch, pool) for _ in range(nsess)]
+
+
+def gen_project(ch, pool):
     """Draw a project description; all-zero draws give one target, no
     edges, one call requesting it."""
     n = 1 + ch.weighted([1, 3, 5, 6, 5, 3, 2], "ntargets")
-    pool = NAME_POOLS[ch.draw(len(NAME_POOLS), "names")]
     names = ch.perm(pool, "nameperm")[:n] if ch.chance(1, 2, "shufnames") \
         else pool[:n]
     shape = ch.weighted([3, 4, 3, 3], "shape")
@@ -172,12 +209,13 @@ def execute(desc):
                     runner = tasks.TaskRunner()
                 runner.run(proj, req)
             out = ("ok", "")
-        except tasks.TaskError as e:
-            out = ("taskerror", str(getattr(e, "msg", e)))
         except RecursionError:
             out = ("exception", "RecursionError")
         except Exception as e:  # behaviour of the code under test
-            out = ("exception", f"{type(e).__name__}: {e}")
+            if type(e).__name__ == "TaskError":
+                out = ("taskerror", str(getattr(e, "msg", e)))
+            else:
+                out = ("exception", f"{type(e).__name__}: {e}")
         finally:
             _FAULT[0] = None
         outcomes.append((out[0], out[1], list(_HISTORY)))
@@ -294,33 +332,33 @@ def check_call(desc, call, outcome, probes):
 # ---------------------------------------------------------------- one run
 
 
-def run_desc(desc, ctx):
-    """Execute under the SimSet seam and judge."""
+def run_history(descs, ctx):
+    """Execute the sessions of one simulated process under the SimSet seam
+    and judge every call."""
     from collections import Counter
 
     probes = Counter()
-    old = tasks.__dict__.get("set")
+    fresh_process_state()
     tasks.set = SimSet
     set_context(ctx)
     try:
-        outcomes = execute(desc)
+        outcomes = [execute(desc) for desc in descs]
     finally:
         set_context(None)
-        if old is None:
-            del tasks.set
-        else:
-            tasks.set = old
     viol = []
-    for call, outcome in zip(desc["calls"], outcomes):
-        viol += check_call(desc, call, outcome, probes)
+    for desc, outs in zip(descs, outcomes):
+        for call, outcome in zip(desc["calls"], outs):
+            viol += check_call(desc, call, outcome, probes)
+    if len(descs) > 1:
+        probes["multi_project_history"] += 1
     return outcomes, viol, probes
 
 
 def run_one(ch, render=False):
     mode = ch.weighted([1, 1, 6], "setmode")
-    desc = gen_project(ch)
+    desc = gen_history(ch)
     ctx = SimSetContext(ch, mode)
-    outcomes, viol, probes = run_desc(desc, ctx)
+    outcomes, viol, probes = run_history(desc, ctx)
     faults = {}
     if probes.get("fault_fired"):
         faults["task_raises_TaskError"] = probes.pop("fault_fired")
@@ -341,16 +379,21 @@ def run_one(ch, render=False):
     if render:
         res["render"] = {
             "set_order_mode": ["sorted", "reverse-sorted", "seeded"][mode],
-            "project": desc,
+            "projects": desc,
             "set_iteration_orders": ctx.orders,
-            "calls": [{"request": c["request"], "fault_at": c["fault_at"],
-                       "outcome": o[0], "message": o[1], "history": o[2]}
-                      for c, o in zip(desc["calls"], outcomes)],
+            "calls": [[{"request": c["request"], "fault_at": c["fault_at"],
+                        "outcome": o[0], "message": o[1], "history": o[2]}
+                       for c, o in zip(d["calls"], outs)]
+                      for d, outs in zip(desc, outcomes)],
         }
     return res
 
 
-def canonical(desc):
+def canonical(descs):
+    return [canonical1(d) for d in descs]
+
+
+def canonical1(desc):
     return [desc["names"], sorted((k, sorted(v)) for k, v in
                                   desc["deps"].items()),
             sorted(desc["ntasks"].items()), desc["via"],
@@ -367,49 +410,64 @@ def classify(oracle_id, detail, res):
 def native_batch():
     """Fresh interpreter, no seam: read descriptions from stdin, execute them
     under this interpreter's real hash seed, print outcomes."""
-    descs = json.load(sys.stdin)
+    hists = json.load(sys.stdin)
     out = []
-    for desc in descs:
-        out.append(execute(desc))
+    fresh_process_state()
+    for descs in hists:
+        # no fresh state in between: the whole batch is one long history
+        out.append([execute(desc) for desc in descs])
     print("NATIVE " + json.dumps(out))
 
 
-def native_crosscheck(seed, idxs, hashseeds):
-    """Run the projects of some run indices without the seam in fresh
-    interpreters under real hash seeds; judge with the same oracle.  Returns
-    (runs, violations[(key, detail, idx, hashseed, desc)])."""
-    from collections import Counter
-    from sim.choices import Choices
+def native_start(batch, hs):
+    env = dict(os.environ)
+    env["PYTHONHASHSEED"] = str(hs)
+    p = subprocess.Popen(
+        [sys.executable, "-B", os.path.abspath(__file__), "--native-batch"],
+        env=env, stdin=subprocess.PIPE, stdout=subprocess.PIPE,
+        stderr=subprocess.PIPE, text=True)
+    return p
 
-    descs = []
-    for i in idxs:
-        ch = Choices(seed=driver.seed_for(PROP, seed, i))
-        ch.weighted([1, 1, 6], "setmode")
-        descs.append(gen_project(ch))
-    blob = json.dumps(descs)
-    procs = []
-    for hs in hashseeds:
-        env = dict(os.environ)
-        env["PYTHONHASHSEED"] = str(hs)
-        procs.append((hs, subprocess.Popen(
-            [sys.executable, "-B", os.path.abspath(__file__),
-             "--native-batch"], env=env, stdin=subprocess.PIPE,
-            stdout=subprocess.PIPE, stderr=subprocess.PIPE, text=True)))
+
+def native_finish(p, batch):
+    """-> list of (key, detail, position in batch)"""
+    from collections import Counter
+
+    so, se = p.communicate(json.dumps(batch), timeout=900)
+    if p.returncode != 0:
+        raise driver.HarnessError(f"native batch failed: {se[-2000:]}")
+    line = [l for l in so.splitlines() if l.startswith("NATIVE ")][-1]
     viols = []
-    runs = 0
-    for hs, p in procs:
-        so, se = p.communicate(blob, timeout=600)
-        if p.returncode != 0:
-            raise driver.HarnessError(f"native batch failed: {se[-2000:]}")
-        line = [l for l in so.splitlines() if l.startswith("NATIVE ")][-1]
-        for i, desc, outcomes in zip(idxs, descs, json.loads(line[7:])):
-            runs += 1
+    for pos, (hist, outs) in enumerate(zip(batch, json.loads(line[7:]))):
+        for desc, outcomes in zip(hist, outs):
             for call, outcome in zip(desc["calls"], outcomes):
                 outcome = (outcome[0], outcome[1],
                            [tuple(x) for x in outcome[2]])
                 for key, detail in check_call(desc, call, outcome, Counter()):
-                    viols.append((key, detail, i, hs, desc))
-    return runs, viols
+                    viols.append((key, detail, pos))
+    return viols
+
+
+def native_crosscheck(seed, idxs, hashseeds):
+    """Run the histories of some run indices without the seam in fresh
+    interpreters under real hash seeds (each interpreter executes the whole
+    batch: one long history); judge with the same oracle.  Returns
+    (runs, violations[(key, detail, idx, hashseed, batch_for_replay)])."""
+    from sim.choices import Choices
+
+    batch = []
+    for i in idxs:
+        ch = Choices(seed=driver.seed_for(PROP, seed, i))
+        ch.weighted([1, 1, 6], "setmode")
+        batch.append(gen_history(ch))
+    procs = [(hs, native_start(batch, hs)) for hs in hashseeds]
+    viols = []
+    runs = 0
+    for hs, p in procs:
+        runs += len(batch)
+        for key, detail, pos in native_finish(p, batch):
+            viols.append((key, detail, idxs[pos], hs, pos))
+    return runs, viols, batch
 
 
 class Spec:
@@ -453,24 +511,28 @@ def extra_phase(seed, tier, n_runs, merged):
     nproj = 400 if tier == "quick" else 4000
     hashseeds = list(range(0, 8 if tier == "quick" else 16))
     idxs = list(range(min(nproj, n_runs)))
-    runs, viols = native_crosscheck(seed, idxs, hashseeds)
+    runs, viols, batch = native_crosscheck(seed, idxs, hashseeds)
     seam_keys = {k.split("|")[0] for k in merged["viol"]}
     out = []
     seen = set()
-    for key, detail, i, hs, desc in viols:
-        fid = classify(key, detail, {"desc": desc})
+    for key, detail, i, hs, pos in viols:
+        fid = classify(key, detail, {"desc": batch[pos]})
         k = key if fid is None else f"{key}|known:{fid}"
         if k in seen:
             continue
         seen.add(k)
+        # minimise the history: the failing session alone, else the prefix
+        alone = native_finish(native_start([batch[pos]], hs), [batch[pos]])
+        rb = [batch[pos]] if any(v[0] == key for v in alone) \
+            else batch[: pos + 1]
         out.append((k, f"[native PYTHONHASHSEED={hs}] " + detail,
-                    {"name": f"native-run{i}-hs{hs}", "desc": desc,
-                     "hashseed": hs, "run_index": i}))
+                    {"name": f"native-run{i}-hs{hs}", "batch": rb,
+                     "desc": batch[pos], "hashseed": hs, "run_index": i}))
     return {
         "coverage": {
             "traces_validated_against_impl": runs,
             "native_crosscheck": {
-                "projects": len(idxs), "hash_seeds": hashseeds,
+                "histories": len(idxs), "hash_seeds": hashseeds,
                 "runs_without_seam": runs,
                 "violations_without_seam": len(viols),
                 "oracles_violated_without_seam": sorted(
@@ -485,25 +547,13 @@ def extra_phase(seed, tier, n_runs, merged):
 def replay_custom(rp, path):
     """Replay of a violation seen without the seam: fresh interpreter with the
     recorded real hash seed."""
-    from collections import Counter
-
-    env = dict(os.environ)
-    env["PYTHONHASHSEED"] = str(rp["hashseed"])
-    p = subprocess.run(
-        [sys.executable, "-B", os.path.abspath(__file__), "--native-batch"],
-        env=env, input=json.dumps([rp["desc"]]), capture_output=True,
-        text=True, timeout=300)
-    line = [l for l in p.stdout.splitlines() if l.startswith("NATIVE ")][-1]
-    outcomes = json.loads(line[7:])[0]
-    desc = rp["desc"]
-    found = []
-    for call, outcome in zip(desc["calls"], outcomes):
-        outcome = (outcome[0], outcome[1], [tuple(x) for x in outcome[2]])
-        found += check_call(desc, call, outcome, Counter())
-    print(json.dumps({"desc": desc, "outcomes": outcomes}, indent=1))
+    found = native_finish(native_start(rp["batch"], rp["hashseed"]),
+                          rp["batch"])
+    print(json.dumps({"failing_history": rp["desc"],
+                      "sessions_in_process": len(rp["batch"])}, indent=1))
     want = rp["key"].split("|")[0]
-    if any(k == want for k, _ in found):
-        for k, d in found:
+    if any(k == want for k, _, _ in found):
+        for k, d, _ in found:
             print(f"  {k}: {d}")
         print(f"VIOLATION property={PROP} replay={path}")
         return report.EXIT_VIOLATION
